@@ -135,6 +135,32 @@ func goEntry() string {
 	return "?"
 }
 
+// ParentGoID returns the id of the goroutine that created the calling goroutine (0 if unknown), read from the
+// "created by f in goroutine N" line of its stack dump. Worlds use it to attribute a helper goroutine spawned by
+// the code under test to the logical thread that spawned it.
+func ParentGoID() uint64 {
+	buf := make([]byte, 16384)
+	n := runtime.Stack(buf, false)
+	for _, l := range bytes.Split(buf[:n], []byte("\n")) {
+		if !bytes.HasPrefix(l, []byte("created by ")) {
+			continue
+		}
+		k := bytes.LastIndex(l, []byte(" in goroutine "))
+		if k < 0 {
+			return 0
+		}
+		var id uint64
+		for _, ch := range l[k+len(" in goroutine "):] {
+			if ch < '0' || ch > '9' {
+				break
+			}
+			id = id*10 + uint64(ch-'0')
+		}
+		return id
+	}
+	return 0
+}
+
 // Parker parks every goroutine that is not the driver at each Gate call; the driver releases one at a
 // time and uses synctest.Wait as the quiescence barrier.
 type Parker struct {
